@@ -9,7 +9,10 @@ RULE = ("E1: SumdbClient with two timelines A and B sharing a prefix of 0-3 reco
         "moves to a signed extension, no two inconsistent heads ever stored, a presented fork makes the lookup fail and leaves the "
         "stored head alone, security reports carry both signed notes; plus schedules in which a split-view server meets two "
         "goroutines of one client (responses from both timelines and an install that had to be retried; found exhaustively under a "
-        "view, replayed through the gate scheduler): no two successful lookups carry mutually inconsistent heads. E3: random forks at sizes up to 500 and heights up to 8. "
+        "view, replayed through the gate scheduler): no two successful lookups carry mutually inconsistent heads; and behaviours in which other honest processes sharing the configuration "
+        "(EnvStore: a newer head of the served timeline is stored while a thread stands between reading the file and its compare-and-swap) win the "
+        "swap three times in a row around a restart and a change of view: no lookup succeeds with a head inconsistent with an earlier "
+        "accepted one or with what the shared configuration holds. E3: random forks at sizes up to 500 and heights up to 8. "
         "Non-trivial = every behaviour (all involve two timelines).")
 
 
@@ -25,6 +28,12 @@ def run(ctx):
         raise Infra("the fork-race scenario search produced no schedule")
     with open(out, "a") as fo:
         fo.writelines(l for l in open(out2) if l.startswith('"'))
+    # outside writers (EnvStore) win the swap three times in a row around a restart and a change of view
+    out3, _ = sumdbmc.run_configs(ctx, sumdbmc.c13_env_configs(ctx.tier), workers_each=8, parallel=1, timeout=3000, label="C13env")
+    if sum(1 for l in open(out3) if l.startswith('"')) == 0:
+        raise Infra("the search for three lost compare-and-swaps around a restart produced no behaviour")
+    with open(out, "a") as fo:
+        fo.writelines(l for l in open(out3) if l.startswith('"'))
     rep = ctx.vh(["replay", "client", out])
     rep["violations"] = [v for v in rep.get("violations", []) if v.get("sig", "").startswith(("c13:", "behaviour:"))]
     ctx.add_report(rep, floor=1000 if ctx.quick() else 20000, engine="C13:replay")
